@@ -5,7 +5,8 @@ from common import TranslatorAbort
 
 STATIC = ["Base/Syntax.v", "Model/PyNum.v", "Model/IR.v", "Model/VM.v", "Model/Elab.v", "Model/Lower.v", "Spec/RefSem.v", "Proofs/OpsAgree.v",
           "Proofs/LowerExprProofs.v", "Proofs/ElabExprProofs.v", "Proofs/ReturnExprProofs.v", "Proofs/CallAgreeProofs.v", "Proofs/ReturnExprExample.v", "Harness/FragLib.v",
-          "Proofs/LowerStmtProofs.v", "Proofs/ElabStmtProofs.v", "Proofs/StraightLineProofs.v", "Proofs/StraightLineExample.v", "Harness/FragLib2.v", "Proofs/FlowLowerProofs.v", "Proofs/FlowFuncProofs.v", "Harness/FlowLib.v"]
+          "Proofs/LowerStmtProofs.v", "Proofs/ElabStmtProofs.v", "Proofs/StraightLineProofs.v", "Proofs/StraightLineExample.v", "Harness/FragLib2.v", "Proofs/FlowLowerProofs.v", "Proofs/FlowFuncProofs.v", "Harness/FlowLib.v",
+          "Proofs/FlowElabProofs.v", "Proofs/FlowTableProofs.v", "Proofs/FlowSimProofs.v", "Proofs/FlowSimExample.v", "Harness/FlowLib2.v"]
 
 
 def gen_programs(ctx, n):
@@ -99,7 +100,7 @@ def straight_programs(ctx, n):
 
 def conditional_programs(ctx, n):
     """functions with if / if-else statements (nested, with blocks) over assignments, between declarations, ending in a return: the fragment
-    of theorem C01_conditional_lowering_partial"""
+    of theorems C01_conditional_lowering_partial and C01_conditional_functions_partial"""
     from nslgen import Module, Global, Func, Arg, Block, Ret, B, V, Decl, ES, A, If
     rng = ctx.rng
     out = []
@@ -177,7 +178,7 @@ def run(ctx):
             direct_bad.append((text, r)); continue
         d, e = vmcases.case_block(k, m, r, calls)
         if k >= flow_from:
-            e = "(%s + 1000 * (200000000 + flow_case M_%d))" % (e, k)
+            e = "(%s + 1000 * (200000000 + flow_case2 M_%d))" % (e, k)
         elif k >= straight_from:
             e = "(%s + 1000 * (100000000 + straight_case M_%d))" % (e, k)
         elif k >= ret_from:
@@ -191,7 +192,7 @@ def run(ctx):
     bad_spec, bad_model = [], []
     frag = {"functions": 0, "inside_proved_fragment": 0, "literal_test_passed": 0}
     sfrag = {"functions": 0, "inside_proved_fragment": 0, "literal_test_passed": 0, "lowered_ir_also_in_forwarding_fragment": 0}
-    ffrag = {"functions": 0, "inside_proved_fragment": 0, "of_which_with_a_conditional": 0}
+    ffrag = {"functions": 0, "inside_lowering_fragment": 0, "of_which_with_a_conditional": 0, "inside_end_to_end_fragment_literals_exact": 0}
     for x, c in zip(meta, codes):
         if c is None:
             continue
@@ -200,7 +201,8 @@ def run(ctx):
             c = c % 1000
             if fc >= 200000000:
                 fc -= 200000000
-                ffrag["functions"] += fc // 10000; ffrag["inside_proved_fragment"] += (fc // 100) % 100; ffrag["of_which_with_a_conditional"] += fc % 100
+                ffrag["functions"] += fc // 1000000; ffrag["inside_lowering_fragment"] += (fc // 10000) % 100
+                ffrag["of_which_with_a_conditional"] += (fc // 100) % 100; ffrag["inside_end_to_end_fragment_literals_exact"] += fc % 100
             elif fc >= 100000000:
                 fc -= 100000000
                 sfrag["functions"] += fc // 1000000; sfrag["inside_proved_fragment"] += (fc // 10000) % 100
